@@ -33,6 +33,7 @@ type Interp struct {
 	noIfConv    bool
 	bgCtx       *NativeObj
 	mainPkg     *ssa.Package
+	replaceAlways map[string]bool
 }
 
 type deferred struct {
@@ -763,7 +764,7 @@ func (in *Interp) call(caller *frame, pos token.Pos, fn Value, args []Value) Val
 }
 
 func (in *Interp) callSSA(caller *frame, pos token.Pos, fn *ssa.Function, args []Value, env []Value) Value {
-	if r, ok := in.replace[fn.String()]; ok && (caller == nil || caller.fn != r) && in.ex.fixed == nil {
+	if r, ok := in.replace[fn.String()]; ok && (caller == nil || caller.fn != r) && (in.ex.fixed == nil || in.replaceAlways[fn.String()]) {
 		in.ex.stats.Stubs["replaced: "+fn.String()+" -> "+r.String()] = true
 		fn = r
 	}
